@@ -51,7 +51,7 @@ func (crashScen) Rule(string) string {
 }
 
 func (crashScen) Gen(r *Rng, cfg GenConfig) any {
-	base := cachehist{}.Gen(r, GenConfig{Tier: cfg.Tier, Prop: "C01", Idx: cfg.Idx, NumCPU: cfg.NumCPU}).(*CHCase)
+	base := cachehist{}.Gen(r, GenConfig{Tier: cfg.Tier, Prop: "nowriters", Idx: cfg.Idx, NumCPU: cfg.NumCPU}).(*CHCase)
 	c := &CrashCase{Prog: base.Prog, Disk: base.Disk, Sched: base.Sched, AllK: cfg.Tier == "thorough" && r.Chance(1, 3), KSeed: r.Uint64()}
 	n := r.Range(1, 5)
 	if n > len(base.Ops) {
